@@ -105,6 +105,8 @@ type env struct {
 	lastCase atomic.Value // *tunnelCase
 	// ConnectFunc hook: connections the custom ConnectFunc handed to the proxy and not yet closed
 	cfOpen atomic.Int64
+	// … and how many of them the proxy has closed so far
+	cfClosed atomic.Int64
 	// roots the custom ConnectFunc of "connecttls" verifies the TLS slot targets against
 	slotRoots *x509.CertPool
 }
@@ -125,10 +127,11 @@ type trackedConn struct {
 	net.Conn
 	once   sync.Once
 	closed *atomic.Int64
+	count  *atomic.Int64
 }
 
 func (t *trackedConn) Close() error {
-	t.once.Do(func() { t.closed.Add(-1) })
+	t.once.Do(func() { t.closed.Add(-1); t.count.Add(1) })
 	return t.Conn.Close()
 }
 
@@ -281,7 +284,7 @@ func (e *env) connectFunc(req *http.Request) (*http.Response, io.ReadWriteCloser
 		return nil, nil, err
 	}
 	e.cfOpen.Add(1)
-	var crw io.ReadWriteCloser = &trackedConn{Conn: c, closed: &e.cfOpen}
+	var crw io.ReadWriteCloser = &trackedConn{Conn: c, closed: &e.cfOpen, count: &e.cfClosed}
 	if e.spec.base == "connecttls" {
 		tconn := tls.Client(crw.(net.Conn), &tls.Config{RootCAs: e.slotRoots, ServerName: host})
 		tconn.SetDeadline(time.Now().Add(10 * time.Second))
@@ -337,6 +340,47 @@ func (e *env) openSockets() (client, target float64, err error) {
 		return client, float64(e.cfOpen.Load()), nil
 	}
 	target, err = gauge(e.promD, "fwd_dialer_cx_active")
+	return
+}
+
+// totalMinusActive reads <prefix>_total and then, in a second gathering, <prefix>_active: how many
+// connections of that kind have been closed so far. With the counter read first, a connection that
+// arrives in between makes the result too low for a moment, never too high (conntrack increments the
+// counter, then the gauge; the window between the two is covered by the caller asking twice).
+func totalMinusActive(reg *prometheus.Registry, prefix string) (float64, error) {
+	sum := func(name string) (float64, error) {
+		mfs, err := reg.Gather()
+		if err != nil {
+			return 0, err
+		}
+		var v float64
+		for _, mf := range mfs {
+			if mf.GetName() == name {
+				for _, m := range mf.GetMetric() {
+					v += m.GetCounter().GetValue() + m.GetGauge().GetValue()
+				}
+			}
+		}
+		return v, nil
+	}
+	total, err := sum(prefix + "_total")
+	if err != nil {
+		return 0, err
+	}
+	active, err := sum(prefix + "_active")
+	return total - active, err
+}
+
+// closedSockets reports how many client-side and target-side sockets the proxy has closed since it was
+// started (monotone, unlike openSockets: a close followed at once by a new connection is not missed).
+func (e *env) closedSockets() (client, target float64, err error) {
+	if client, err = totalMinusActive(e.promP, "fwd_listener_cx"); err != nil {
+		return
+	}
+	if e.spec.base == "connectfunc" || e.spec.base == "connecttls" {
+		return client, float64(e.cfClosed.Load()), nil
+	}
+	target, err = totalMinusActive(e.promD, "fwd_dialer_cx")
 	return
 }
 
